@@ -147,6 +147,25 @@ def corrupt_javashapes(recs):
     return i
 
 
+def corrupt_unusedclasses(recs):
+    # one class dropped from a returned list
+    i = _first(recs, lambda r: not r["observed"]["panic"] and r["observed"]["result"])
+    recs[i]["observed"]["result"].pop()
+    recs[i]["observed"]["again"] = list(recs[i]["observed"]["result"])
+    return i
+
+
+def corrupt_cocafile(recs):
+    # one returned file dropped from one run (both requests)
+    i = _first(recs, lambda r: any(run["files"] and not run["panic"] for run in r["observed"]["runs"]))
+    for run in recs[i]["observed"]["runs"]:
+        if run["files"] and not run["panic"]:
+            run["files"].pop()
+            run["again"] = list(run["files"])
+            break
+    return i
+
+
 def corrupt_session(recs):
     i = _first(recs, lambda r: any(o["files"] for o in r["observed"]["full"]))
     for o in recs[i]["observed"]["full"]:
@@ -174,7 +193,7 @@ def corrupt_todogit(recs):
     return i
 
 
-SUITES = [("session", corrupt_session), ("evalservice", corrupt_evalservice), ("todogit", corrupt_todogit), ("frontsderive", corrupt_frontsderive), ("javashapes", corrupt_javashapes), ("todo", corrupt_todo), ("arch", corrupt_arch), ("fronts", corrupt_fronts), ("deps", corrupt_deps),
+SUITES = [("session", corrupt_session), ("unusedclasses", corrupt_unusedclasses), ("cocafile", corrupt_cocafile), ("evalservice", corrupt_evalservice), ("todogit", corrupt_todogit), ("frontsderive", corrupt_frontsderive), ("javashapes", corrupt_javashapes), ("todo", corrupt_todo), ("arch", corrupt_arch), ("fronts", corrupt_fronts), ("deps", corrupt_deps),
           ("badsmell", corrupt_badsmell), ("testsmell", corrupt_testsmell), ("cloc", corrupt_cloc), ("stats", corrupt_stats),
           ("callgraph", corrupt_callgraph), ("springapi", corrupt_springapi), ("javamodel", corrupt_javamodel),
           ("gitlog", corrupt_gitlog), ("rename", corrupt_rename), ("unusedimport", corrupt_unusedimport)]
@@ -182,7 +201,10 @@ SUITES = [("session", corrupt_session), ("evalservice", corrupt_evalservice), ("
 
 def main():
     ok = True
+    only = [x for x in os.environ.get("VERIF_SELFTEST_ONLY", "").split(",") if x]     # e.g. VERIF_SELFTEST_ONLY=cocafile,unusedclasses
     for sname, corrupt in SUITES:
+        if only and sname not in only:
+            continue
         S = importlib.import_module("suites." + sname)
         plan = S.plan("", "quick", 1)
         b = V.build_harness(plan["harness"])
